@@ -16,11 +16,16 @@ func New() Clock { return simClock{real.New()} }
 
 func (c simClock) Sleep(d time.Duration) { simrt.Sleep(d) }
 
+func (c simClock) After(d time.Duration) <-chan time.Time { return c.Clock.After(d + simrt.TimerEps()) }
+func (c simClock) Tick(d time.Duration) <-chan time.Time  { return c.Clock.Tick(d + simrt.TimerEps()) }
+func (c simClock) Ticker(d time.Duration) *Ticker         { return c.Clock.Ticker(d + simrt.TimerEps()) }
+func (c simClock) Timer(d time.Duration) *Timer           { return c.Clock.Timer(d + simrt.TimerEps()) }
+
 func (c simClock) AfterFunc(d time.Duration, f func()) *Timer {
 	s, t := simrt.Cur()
 	if s == nil || t == nil {
 		return c.Clock.AfterFunc(d, f)
 	}
 	node := t.Node
-	return c.Clock.AfterFunc(d, func() { s.GoForeign(node, "afterfunc", f) })
+	return c.Clock.AfterFunc(d+simrt.TimerEps(), func() { s.GoForeign(node, "afterfunc", f) })
 }
